@@ -16,7 +16,7 @@
    size before it writes the header).  Hence there is NO `py_walk_ser_refines`: the composition Python templates -> wire
    specification is tied by correspondence only (codec harness, target py, every run), on top of the leaf law proved here. *)
 From Verif Require Import Bits CPrims CPrimsThm PyPrims PyPrimsThm PyPrimsMoreThm.
-From Verif Require Import Wire WireThm WireThmExt Walker PrimsOn InstancesBase RefineDes.
+From Verif Require Import Wire WireThm WireThmExt Walker PrimsOn InstancesBase RefineDes RefineSerBase.
 Local Open Scope nat_scope.
 
 Definition py_get_bits (buf : list bool) (cap off w : nat) : list bool :=
@@ -130,6 +130,36 @@ Proof.
   eexists. split; [reflexivity|]. split; [exact Heq|].
   rewrite Heq. intros p Hp. rewrite (nth_store buf v off p) by lia.
   destruct (Nat.leb_spec off p); [|lia]. destruct (Nat.ltb_spec p (off + length v)); [lia|]. cbn [andb]. apply Hz. lia.
+Qed.
+
+(* append-only composition: ANY serializer that hands the bit strings c1, c2, ... in order to add_(un)aligned_unsigned, starting
+   from a zero-filled Serializer, leaves their concatenation in the buffer.  With c_i = the specification's encodings of the
+   successive fields this is the shape of the Python templates on types without nested delimited objects. *)
+Fixpoint py_emit (chunks : list (list bool)) (buf : list bool) (off : nat) : option (list bool * nat) :=
+  match chunks with
+  | [] => Some (buf, off)
+  | c :: r => match py_set_bits buf off c with Some b => py_emit r b (off + length c) | None => None end
+  end.
+
+Theorem py_emit_appends : forall chunks buf off, length buf mod 8 = 0 -> Forall (fun c => 1 <= length c) chunks ->
+  off + length (concat chunks) <= length buf -> zero_from buf off ->
+  py_emit chunks buf off =
+    Some (firstn off buf ++ concat chunks ++ skipn (off + length (concat chunks)) buf, off + length (concat chunks)).
+Proof.
+  induction chunks as [|c r IH]; intros buf off Hm Hc Hfit Hz; cbn [py_emit concat].
+  - cbn [length app]. rewrite Nat.add_0_r, firstn_skipn. reflexivity.
+  - inversion Hc as [|? ? Hc1 Hc2]; subst. cbn [concat] in Hfit. rewrite app_length in *.
+    destruct (py_store_inv buf off c Hm Hc1 ltac:(lia) Hz) as (b & -> & Eb & Hzb).
+    assert (Hlb : length b = length buf).
+    { rewrite Eb, !app_length, firstn_length, skipn_length. lia. }
+    rewrite (IH b (off + length c)) by (rewrite ?Hlb; try assumption; lia).
+    f_equal. f_equal; [|lia].
+    assert (Hf : firstn (off + length c) b = firstn off buf ++ c).
+    { rewrite Eb. rewrite firstn_app_exact by (rewrite firstn_length; lia). f_equal.
+      rewrite firstn_app_left by lia. apply firstn_all. }
+    assert (Hs : skipn (off + length c + length (concat r)) b = skipn (off + (length c + length (concat r))) buf).
+    { rewrite Eb. rewrite set_frame by lia. f_equal. lia. }
+    rewrite Hf, Hs, <- !app_assoc. reflexivity.
 Qed.
 
 (* a fresh Serializer satisfies the invariant *)
